@@ -24,7 +24,7 @@ theorem fuzzyEq1_mixed (F : Fmt) (hF : F ≠ f64) (a b : Int) (rel : Nat) (rw : 
   unfold fuzzyEq1 threshold mixedFormula
   simp only [hF, if_false]
   cases rw
-  · cases h : rndMag f64 (max a.natAbs b.natAbs * rel) UNIT <;> simp
+  · simp
   · cases h : rndMag F rel 0 <;> simp
 
 theorem leInf_none (x : Option Nat) : leInf x none = true := by
@@ -63,8 +63,7 @@ theorem mixedFormula_mono (F : Fmt) (a b : Int) {r1 r2 t1 t2 : Nat} (rw aw : Boo
   refine leInf_trans h (maxInf_mono ?_ ?_)
   · cases rw
     · simp only [Bool.false_eq_true, if_false]
-      exact bind_leInf_mono _ (fun x y hxy => rndMag_mono F 0 hxy)
-        (rndMag_mono f64 UNIT (Nat.mul_le_mul_left _ hr))
+      exact rndMag_mono f64 UNIT (Nat.mul_le_mul_left _ hr)
     · simp only [if_true]
       exact bind_leInf_mono _ (fun x y hxy => rndMag_mono F UNIT (Nat.mul_le_mul_left _ hxy))
         (rndMag_mono F 0 hr)
